@@ -1,4 +1,5 @@
 import CM.Proofs.Emphasis
+import CM.Proofs.EmphasisFuel
 import CM.Spec.Flanking
 /-
 C11 — emphasis resolution follows the spec's delimiter-run algorithm.
@@ -46,6 +47,20 @@ theorem flags_eq_spec (u : UExt) (source : Bytes) (start stop : Nat) :
   generalize isUnicodePunctuation u _ = d
   generalize (source.getD start 0 == 0x2A) = e
   cases a <;> cases b <;> cases c <;> cases d <;> cases e <;> rfl
+
+/-- The model's loop carries fuel where the Go loop has none. The fuel `processEmphasis` passes is never
+    exhausted: the measure "remaining delimiter characters + stack entries + distance of the current position
+    from the top" strictly decreases at every iteration. Hence the result does not depend on the fuel (the Go
+    loop terminates), with and without the search bounds. -/
+theorem fuel_irrelevant (useBounds : Bool) (stack : List Delim) (stackBottom : Nat) (fuel : Nat)
+    (h : 2 * totalLen stack + 2 * stack.length + 2 ≤ fuel) :
+    processEmphasisFuel fuel useBounds stack stackBottom = processEmphasis useBounds stack stackBottom :=
+  processEmphasis_fuel_irrelevant useBounds stack stackBottom fuel h
+
+/-- The loop stops because it reached `break`, not because the fuel ran out. -/
+theorem loop_stops_at_break (useBounds : Bool) (stack : List Delim) (stackBottom : Nat) :
+    procStep useBounds stackBottom (procLoop useBounds stackBottom (procFuel stack) (procInit stack stackBottom)) = none :=
+  procLoop_fuel_final useBounds stack stackBottom
 
 -- Non-vacuity: the input of findings F14/F15 (`x*_*_*a*ax`): the stack of its six delimiter runs.
 private def mk (id : Nat) (typ : Int) (o c : Bool) (n : Nat) : Delim :=
